@@ -38,7 +38,17 @@ fn recipes() -> Vec<Value> {
 }
 
 fn completenesses() -> Vec<Value> {
-    subsets(3).into_iter().map(|s| obj(vec![("arguments", pick(s[0], json!(true))), ("environment", pick(s[1], json!(false))), ("materials", pick(s[2], json!(true)))])).collect()
+    // every member absent / true / false
+    let tri = |i: usize| -> Option<Value> { [None, Some(json!(true)), Some(json!(false))][i].clone() };
+    let mut out = vec![];
+    for a in 0..3 {
+        for b in 0..3 {
+            for c in 0..3 {
+                out.push(obj(vec![("arguments", tri(a)), ("environment", tri(b)), ("materials", tri(c))]));
+            }
+        }
+    }
+    out
 }
 
 fn metadatas() -> Vec<Value> {
@@ -58,6 +68,8 @@ fn metadatas() -> Vec<Value> {
     for c in completenesses() {
         out.push(json!({ "completeness": c }));
     }
+    out.push(json!({ "reproducible": true }));
+    out.push(json!({ "reproducible": false, "completeness": {"arguments": false, "environment": false, "materials": false} }));
     out
 }
 
@@ -448,7 +460,7 @@ pub fn run(tier: Tier) -> i32 {
     // observation: StatementWrapper's derived Serialize is externally tagged and is not what its Deserialize reads
     c.extra.insert("observation_wrapper_derive_serialize".into(), json!("StatementWrapper derives an externally tagged Serialize ({\"V0_1\":{..}}) that its own Deserialize does not accept; the canonical form judged here is StateLayout::to_bytes"));
     c.acc = acc;
-    c.rule = "predicates: Link v0.2 (4 env x 4 byproducts x 3 materials x 2 commands), SLSA v0.1 (all 16 recipe subsets, all 32 metadata subsets x 4 timestamp spellings, all 8 completeness subsets, 5 material lists, all 8 top-level subsets), SLSA v0.2 (all invocation/configSource subsets, metadata, 16 top-level subsets); statements: naive, and v0.1 with each of 4 declared types x predicates of every format x 2 subjects; every member name of every format injected one at a time with 3 values; from_meta over C16's link family. distinct_nontrivial = base documents".into();
+    c.rule = "predicates: Link v0.2 (4 env x 4 byproducts x 3 materials x 2 commands), SLSA v0.1 (all 16 recipe subsets, all 32 metadata subsets x 4 timestamp spellings, all 27 completeness settings (absent/true/false per member), 5 material lists, all 8 top-level subsets), SLSA v0.2 (all invocation/configSource subsets, metadata, 16 top-level subsets); statements: naive, and v0.1 with each of 4 declared types x predicates of every format x 2 subjects; every member name of every format injected one at a time with 3 values; from_meta over C16's link family. distinct_nontrivial = base documents".into();
     c.bound_completed = format!("exhaustive per sub-structure, pairwise across; foreign-member injection on every {}th predicate", stride);
     c.assume("typed per-version parsers reached through hook H2 re-exports; canonical form = StateLayout/PredicateLayout::to_bytes");
     c.finish()
